@@ -28,6 +28,9 @@ int g_errno0;
 	/* otherwise exactly one realloc of exactly n*m bytes (never a short allocation), result passed through */ \
 	X(IMP(!MUL_OVERFLOWS(n, m), g_nalloc == 1 && g_alloc_size == n * m && g_alloc_ptr == buf && RET == g_alloc_ret)) \
 	X(IMP(!MUL_OVERFLOWS(n, m) && !g_alloc_fails, RET != 0 && *g_errno == g_errno0)) \
+	/* two characterisations that do not use the division: 32 x 32 bits always fits, 33 x 33 bits never does */ \
+	X(IMP(n <= 0xffffffffu && m <= 0xffffffffu, g_nalloc == 1)) \
+	X(IMP(n > 0xffffffffu && m > 0xffffffffu, g_nalloc == 0 && RET == 0)) \
 	X(n == g_n && m == g_m) \
 	CANARY(X, !(g_n == 3 && g_m == 5 && !g_alloc_fails))
 
